@@ -121,6 +121,10 @@ def generate(rnd, tier):
               "score_class": rnd.choice(["pos", "neg"]), "equal_class": rnd.choice(["pos", "neg"]),
               "group_columns": cols if as_list else cols[0], "bootstrap_ci": boot,
               "alpha": round(rnd.uniform(0.01, 0.5), 3) if rnd.random() < 0.85 else round(rnd.uniform(0.5, 0.95), 2)}
+        if len(cols) > 1 and rnd.random() < 0.4:
+            # the caller names the group columns in another order than the frame has them (or only some of them)
+            sub = rnd.sample(cols, rnd.randint(2, len(cols)) if rnd.random() < 0.8 else 1)
+            op["group_columns"] = sub
         if isinstance(thr, list) and len(thr) > 1 and not wide and rnd.random() < 0.2:
             thr = thr[::-1] if rnd.random() < 0.5 else thr + [thr[0]]  # descending / duplicated thresholds
             op["threshold"] = thr
